@@ -92,6 +92,8 @@ def abbreviate(case):
                   + (" init" if c.get("init") else "") for c in scn.get("conns", [])],
         "initial_events": scn.get("initial_events", {}), "until": scn["until"],
         "world": scn.get("world", {}), "run": scn.get("run", {}), "schedule": case.get("schedule", {}),
+        **{k: case[k] for k in ("faults", "fault13", "negative", "externals", "async") if case.get(k)},
+        **({"async": scn["async"]} if scn.get("async") else {}),
     }
 
 
